@@ -4,6 +4,7 @@ import (
 	"fmt"
 	"go/types"
 	"os"
+	"runtime/debug"
 	"sort"
 	"strings"
 	"sync"
@@ -571,6 +572,10 @@ func (e *Engine) runPath() {
 				if ee, ok := r.(engineErr); ok {
 					ee.Msg += " [at " + e.where() + " stack: " + e.stack() + "]"
 					panic(ee)
+				}
+				if os.Getenv("VP_DEBUG") != "" {
+					fmt.Println("ENGINE PANIC:", r)
+					fmt.Println(string(debug.Stack()))
 				}
 				panic(fmt.Sprintf("%v [at %s stack: %s]", r, e.where(), e.stack()))
 			}
